@@ -702,6 +702,7 @@ def infer_sigs(prods, nts, attr_nts, eff):
         by_lhs.setdefault(p.lhs, []).append(p)
     virtual = [nt for nt in nts if nt.startswith("Err_")]
     real = [nt for nt in nts if not nt.startswith("Err_")]
+    entry_nts = {"Uppaal"} | {nt for nt in nts if nt.startswith("Start_")}
     for si in range(len(STACKS)):
         cap = CAPS[STACKS[si]]
         lo = {nt: None for nt in nts}      # None = unknown yet ; 'clob' ; (c0,c1)
@@ -773,7 +774,7 @@ def infer_sigs(prods, nts, attr_nts, eff):
                     clob = clob or cl or st is None
                     if nt in virtual:
                         wn, wd = max(wn, min(req, 6)), max(wd, min(dp, 6))
-                    elif req <= (cap if nt != "Uppaal" else (1 if STACKS[si] == "R" else 0)):
+                    elif req <= (cap if nt not in entry_nts else (1 if STACKS[si] == "R" else 0)):
                         wn, wd = max(wn, req), max(wd, min(dp, req))
                 if clob and lo[nt] != "clob":
                     lo[nt] = "clob"
@@ -860,8 +861,20 @@ def translate(repo="/repo", verif=None):
             vp.origin = (q.name, dot)
             vp.has_error = True
             vprods.append(vp)
-    all_nts = nts + [n for n, _, _ in vnts]
-    all_prods = prods + vprods
+    # one nonterminal per start alternative (= per xta_part_t entry point and syntax switch): `Start_<token>`
+    snts, sprods = [], []
+    for p in prods:
+        if p.lhs == "Uppaal" and p.items and p.items[0][0] == "tok":
+            name = "Start_" + p.items[0][1]
+            sp = Prod(name, name + "#1")
+            sp.items = list(p.items)
+            sp.attr = p.attr
+            sp.has_error = p.has_error
+            sp.origin_start = p.name
+            snts.append(name)
+            sprods.append(sp)
+    all_nts = nts + snts + [n for n, _, _ in vnts]
+    all_prods = prods + sprods + vprods
     # callbacks
     cbs = []
     for p in all_prods:
@@ -972,6 +985,8 @@ def translate(repo="/repo", verif=None):
     w("def prodKey : Nat → String")
     for idx, p in enumerate(all_prods):
         key = p.name if not hasattr(p, "origin") else "abandon:%s@%d" % p.origin
+        if hasattr(p, "origin_start"):
+            key = p.origin_start      # the same production as the start alternative it copies: one key
         w("  | %d => \"%s\"" % (idx, key))
     w("  | _ => \"?\"")
     w("")
@@ -1001,6 +1016,7 @@ def translate(repo="/repo", verif=None):
     w("")
     w("def startNT : NT := .Uppaal")
     w("def numRealProds : Nat := %d" % len(prods))
+    w("def numStartProds : Nat := %d" % len(sprods))
     w("end UtapModel.Gen.Grammar")
     text = "\n".join(out) + "\n"
     info["callback_list"] = cbs
